@@ -97,7 +97,7 @@ def draw_service_opts(rng, refs, kinds):
     property to lose.  kinds: (node, comp) -> component kind."""
     if rng.random() < 0.35:
         return None
-    shared = any(x[0] in ("n", "c") and not dedicated(kinds.get((x[1], x[2]), "smart6")) for x in refs) or any(x[0] in ("f", "w") for x in refs)
+    shared = any(x[0] in ("n", "c") and not dedicated(kinds.get((x[1], x[2]), "smart6")) for x in refs) or any(x[0] in ("f", "w", "s") for x in refs)
     t = rng.choice([x for x in SERVICE_TYPES if not (x == "L2PTP" and shared)])
     o = {"t": t}
     if rng.random() < 0.6:
@@ -164,6 +164,16 @@ def gen_recipe(rng, size=None):
         r.append(["switch", "sw0", rng.choice(SITES), npo])
         for p in range(npo):
             ifs.append(["w", "sw0", p])
+    # services a node / a switch owns directly, with ports of their own.  Interface names are unique per SERVICE only: every
+    # such service has a p1 (p10, p100), so one node directly holds several interfaces of one name (next to the switch's own
+    # p1..pn) - whatever collects "the interfaces of the node" by name sees one of them
+    if rng.random() < 0.35:
+        hosts = nodes + [st[1] for st in r if st[0] == "switch"]
+        for hn in rng.sample(hosts, min(len(hosts), rng.choice([1, 1, 2]))):
+            for sn in rng.sample(["nsa", "nsb", hn + "-nsa"], rng.choice([1, 2, 2, 3])):
+                k2 = rng.choice([1, 1, 2, 3])
+                r.append(["nodesvc", hn, sn, k2])
+                ifs.extend(["s", hn, sn, j] for j in range(k2))
     rng.shuffle(ifs)
     free = list(ifs)
     svcs = []
@@ -357,6 +367,16 @@ def corner_recipes():
             out.append(X + [["child", "n0", "x1", 0, "ch0", "100"], ["service", "s0", [["c", "n0", "x1", 0, "ch0"], B]],
                             ["service", "s1", [P1] if P1 != P0 else []]])
             out.append(X + [["link", "l0", [P0, B], "L2Path"], ["service", "s1", [P1, B2] if P1 != P0 else [B2]]])
+    # services a node / a switch owns directly, each with a port p1 (names are unique per service only): both p1 connected to
+    # services of the topology, one connected and one on an explicit link, and next to the switch's own ports p1, p2
+    for host in (["node", "n0", "RENC"], ["switch", "n0", "RENC", 2]):
+        NS = [host, ["nodesvc", "n0", "nsa", 2], ["nodesvc", "n0", "nsb", 1], ["node", "n1", "RENC"], ["comp", "n1", "n1-c0", "smart6"]]
+        Pa, Pa2, Pb = ["s", "n0", "nsa", 0], ["s", "n0", "nsa", 1], ["s", "n0", "nsb", 0]
+        out.append(NS + [["service", "s0", [Pa, B]], ["service", "s1", [Pb, B2]]])
+        out.append(NS + [["service", "s0", [Pb, Pa]], ["link", "l0", [Pa2, B]]])
+        out.append(NS + [["service", "s0", [Pa]], ["service", "s1", [Pb]], ["peer", "s0", "s1"], ["mark", "node", "n0"]])
+        if host[0] == "switch":
+            out.append(NS + [["service", "s0", [Pa, ["w", "n0", 0]]], ["service", "s1", [Pb, ["w", "n0", 1], B2]]])
     # services of every type, with a site of their own (given at creation) or one written by validate(), holding one or two
     # interfaces: whatever is removed next to them, they keep their properties
     for i, stype in enumerate(SERVICE_TYPES):
@@ -374,6 +394,7 @@ class Built:
         self.svc = {}      # name -> handle returned by the constructor (kept across operations)
         self.children = {}  # (node, comp, port) -> parent Interface handle
         self.nodeh = {}     # name -> Node handle returned by add_node (kept: lookups of a history go through it as well)
+        self.nsids = set()  # node ids of the services added to nodes / switches by "nodesvc" steps
         self.lookups = []   # outcome of every lookup step of the history (what it resolved to, or the error kind)
 
 
@@ -387,7 +408,10 @@ def resolve_if(b, ref):
     if ref[0] == "f":
         return t.facilities[ref[1]].interface_list[ref[2]]
     if ref[0] == "w":
-        return t.nodes[ref[1]].interface_list[ref[2]]
+        if not b.nsids:
+            return t.nodes[ref[1]].interface_list[ref[2]]
+        # a switch that was given further services: its own ports are those of the service it came with
+        return [i for ns in t.nodes[ref[1]].network_services.values() if ns.node_id not in b.nsids for i in ns.interface_list][ref[2]]
     if ref[0] == "s":
         return t.nodes[ref[1]].network_services[ref[2]].interface_list[ref[3]]
     raise ValueError(ref)
@@ -437,6 +461,7 @@ def build(recipe):
                 b.nodeh[st[1]] = t.add_node(name=st[1], site=st[2], node_id=nid("node", st[1]))
         elif k == "nodesvc":
             ns = t.nodes[st[1]].add_network_service(name=st[2], node_id=nid("ns", nidx.get(st[1]), st[2]), nstype=fu.ServiceType.MPLS)
+            b.nsids.add(ns.node_id)
             for j in range(st[3]):
                 # port names p1, p10, p100: prefixes of each other
                 ns.add_interface(name="p1" + "0" * j, node_id=nid("p", nidx.get(st[1]), st[2], j), itype=fu.InterfaceType.TrunkPort)
@@ -589,7 +614,7 @@ def _map_ref(ref, kind, p, new):
     ref = list(ref)
     if kind == "node" and ref[0] in ("n", "c", "s") and ref[1] == p[0]:
         ref[1] = new
-    elif kind == "switch" and ref[0] == "w" and ref[1] == p[0]:
+    elif kind == "switch" and ref[0] in ("w", "s") and ref[1] == p[0]:
         ref[1] = new
     elif kind == "facility" and ref[0] == "f" and ref[1] == p[0]:
         ref[1] = new
@@ -618,7 +643,7 @@ def _renamed(st, rn):
         elif k == "mark" and st[1] in ("node", "comp") and st[2] == p[0]:
             st[2] = new
     elif kind in ("switch", "facility"):
-        if k == kind and st[1] == p[0]:
+        if (k == kind or (k == "nodesvc" and kind == "switch")) and st[1] == p[0]:
             st[1] = new
     elif kind == "comp":
         if k in ("comp", "child") and st[1] == p[0] and st[2] == p[1]:
@@ -688,7 +713,8 @@ def add_history(rng, r, free=()):
                 cands.append(("link", [st[1]]))
             elif st[0] == "nodesvc":
                 cands.extend([("nodesvc", [st[1], st[2]])] * 2)
-                cands.append(("port", [["s", st[1], st[2], rng.randrange(st[3])]]))
+                if st[3]:
+                    cands.append(("port", [["s", st[1], st[2], rng.randrange(st[3])]]))
             elif st[0] in ("switch", "facility"):
                 cands.append((st[0], [st[1]]))
         if not cands:
@@ -1065,6 +1091,9 @@ def enumerate_ops(recipe):
             for j in range(st[3]):
                 ops.append(["remove_interface", st[1], st[2], j])
     sub = any(st[0] == "opts" and st[1].get("substrate") for st in recipe)
+    if not sub:
+        # (an experiment topology refuses NetworkService.remove_interface: offered as svc_remove_interface above)
+        ops = [op for op in ops if op[0] != "remove_interface"]
     if sub:
         for st in recipe:
             # the service of a switch / a facility: remove one of its interfaces through a looked-up handle
@@ -1121,6 +1150,9 @@ def linkname(ref):
         return "%s-%s-link" % (ref[1], ref[4])
     if ref[0] == "f":
         return None
+    if ref[0] == "s":
+        # (ports p1, p10, p100 in every service of the node: two services of one node give the same link name twice)
+        return "%s-p1%s-link" % (ref[1], "0" * ref[3])
     return "%s-p%d-link" % (ref[1], ref[2] + 1)
 
 
